@@ -59,8 +59,8 @@ theorem isEmpty_sound (O : Oracle) (hO : O.PresolveAmbiguous) (l : TL) (b : Bool
       rcases Nat.mul_eq_zero.mp h0 with h1 | h1
       · exact absurd h1 hr0
       · exact h1
-    simp only [Except.ok.injEq, List.any_eq_true, decide_eq_true_eq] at h
-    obtain ⟨t, ht, hneg⟩ := h
+    simp only [Except.ok.injEq, Bool.and_eq_true, List.any_eq_true, decide_eq_true_eq] at h
+    obtain ⟨_, t, ht, hneg⟩ := h
     rintro ⟨v, hv⟩
     have := (PTerm.holds_of_vars_nil t (TL.varfree_of_vars_nil l (List.length_eq_zero_iff.mp hn) t ht) v).mp (hv t ht)
     exact absurd hneg (by simpa [Rat.not_lt] using this)
@@ -132,7 +132,7 @@ theorem optimize_some (O : Oracle) (hO : O.PresolveAmbiguous) (l : TL) (obj : Li
     · cases h
 
 /-- `None`: the constraints are satisfiable and the objective is unbounded in the requested direction -/
-theorem optimize_none (O : Oracle) (hO : O.PresolveAmbiguous) (l : TL) (obj : Lin) (mx : Bool)
+theorem optimize_none (hg : Gen.emptyNoColsBySign = true) (O : Oracle) (hO : O.PresolveAmbiguous) (l : TL) (obj : Lin) (mx : Bool)
     (h : optimize O l obj mx = .ok none) :
     (∃ z, TL.holds l z) ∧ ∀ M, ∃ z, TL.holds l z ∧ (if mx then M < evalL obj z else evalL obj z < -M) := by
   unfold optimize at h
@@ -189,7 +189,7 @@ theorem optimize_none (O : Oracle) (hO : O.PresolveAmbiguous) (l : TL) (obj : Li
           unfold isEmpty at he
           by_cases hn : l.vars.length = 0
           · rw [hn] at he
-            exact hinf ⟨fun _ => 0, polyEmpty_false_nocols O l hlne
+            exact hinf ⟨fun _ => 0, polyEmpty_false_nocols hg O l hlne
               (TL.varfree_of_vars_nil l (List.length_eq_zero_iff.mp hn)) he _⟩
           · exact hinf (polyEmpty_false' O hO l _ hlne hn he)
         · exact conv hsat hunb
